@@ -26,6 +26,8 @@ var props = map[string]propFunc{
 	"C08": runC08,
 	"C10": runC10,
 	"C11": runC11,
+	"C12": runC12,
+	"C13": runC13,
 	"C16": runC16,
 	"C17": runC17,
 }
